@@ -13,9 +13,9 @@
    the structure alone.  Proofs: proofs/SpecMechProofs.v, proofs/SpecTextProofs.v,
    proofs/SpecDocProofs.v. *)
 Require Import GM.model.Base GM.model.Util GM.model.UtilI GM.model.Ids GM.model.SpecMech GM.model.SpecDoc
-               GM.model.HtmlWriter GM.model.Refs GM.model.Blocks GM.model.Reader GM.model.ListItem GM.model.LeafBlocks GM.model.Delim GM.model.DelimI GM.model.CodeSpan.
+               GM.model.HtmlWriter GM.model.Refs GM.model.Blocks GM.model.Reader GM.model.ListItem GM.model.LeafBlocks GM.model.Delim GM.model.DelimI GM.model.CodeSpan GM.model.CodeBlock.
 Require Import GM.gen.Tables GM.gen.Entities.
-Require Import GM.proofs.SpecMechProofs GM.proofs.SpecTextProofs GM.proofs.SpecDocProofs GM.proofs.SpecTabProofs GM.proofs.ListItemProofs GM.proofs.LeafBlocksProofs GM.proofs.DelimProofs GM.proofs.CodeSpanProofs.
+Require Import GM.proofs.SpecMechProofs GM.proofs.SpecTextProofs GM.proofs.SpecDocProofs GM.proofs.SpecTabProofs GM.proofs.ListItemProofs GM.proofs.LeafBlocksProofs GM.proofs.DelimProofs GM.proofs.CodeSpanProofs GM.proofs.CodeBlockProofs.
 Open Scope N_scope.
 
 (* the hard-break test (parser.go, after the fix) looks at the parity of the final run of
@@ -256,6 +256,38 @@ Theorem C02_code_span_no_closer_partial : forall (t : nat) (c : bytes) (fuel : n
   (1 <= t)%nat -> runs_shorter t 0 c = true -> find_closer fuel c 0 (Z.of_nat t) = None.
 Proof. exact find_closer_none. Qed.
 Print Assumptions C02_code_span_no_closer_partial.
+
+(* ---- indented code (model of parser/code_block.go with IndentPosition, the reader's padding
+   and preserveLeadingTabInCodeBlock) ---- *)
+
+(* behind any container prefix without tabs, a line whose indentation spans at least four
+   columns - written with blanks, tabs or both - opens an indented code block whose first line
+   has exactly the content CommonMark prescribes: four columns removed, a partly used tab
+   leaving blanks for its remaining columns, later tabs kept *)
+Theorem C02_code_block_open_dedents_partial : forall (prefix ws body : bytes) (c : N),
+  (forall b, In b prefix -> b <> 10 /\ b <> 9) ->
+  all_ws ws -> c <> 32 -> c <> 9 -> c <> 10 -> IsSpace c = false ->
+  (forall b, In b body -> b <> 10) ->
+  (4 <= expanded_width ws (zlen prefix) - zlen prefix)%Z ->
+  let line := ws ++ c :: body ++ [10] in
+  let src := prefix ++ line in
+  forall r, r_advance (new_reader src) (zlen prefix) = Ok r ->
+  exists sg r', code_block_open space_table r = Ok (Some (sg, r')) /\
+                seg_value src sg = Ok (dedent_cols 4 line (zlen prefix)).
+Proof. exact (code_block_open_dedents space_table eq_refl eq_refl). Qed.
+Print Assumptions C02_code_block_open_dedents_partial.
+
+(* and a line indented less than four columns does not *)
+Theorem C02_code_block_open_declines_partial : forall (prefix ws body : bytes) (c : N),
+  (forall b, In b prefix -> b <> 10 /\ b <> 9) ->
+  all_ws ws -> c <> 32 -> c <> 9 -> c <> 10 ->
+  (forall b, In b body -> b <> 10) ->
+  (expanded_width ws (zlen prefix) - zlen prefix < 4)%Z ->
+  let src := prefix ++ ws ++ c :: body ++ [10] in
+  forall r, r_advance (new_reader src) (zlen prefix) = Ok r ->
+  code_block_open space_table r = Ok None.
+Proof. exact (code_block_open_declines space_table eq_refl eq_refl). Qed.
+Print Assumptions C02_code_block_open_declines_partial.
 
 (* non-vacuity: the design-time deviation (three backslashes before the line end) is a hard break *)
 Example C02_demo : line_break_kind [97; 92; 92; 92; 10] = 1 /\ line_break_kind [97; 92; 92; 10] = 3.
